@@ -221,17 +221,51 @@ func runC10(c *Checker) {
 		c.check("C10.reject", shortFn(proc), "a descriptor whose signal has no PTS is rejected before anything else happens", okFirst, "the HasPTS test is not the entry test")
 	}
 
-	// ---- blackout invariant maintenance
+	// ---- blackout invariant maintenance (induction step per method)
+	spec := fiSpec{S: "open", I: "blackoutIdx", B: "inBlackout"}
 	for _, fn := range []*ssa.Function{proc, cls} {
-		for _, st := range fieldStores(fn, "open") {
-			v := sx(st.Val)
-			if !strings.HasPrefix(v, "*&$s.open[") {
-				continue // append: grows
-			}
-			// a re-slice that may shorten the list
-			ok, why := revalidatedOnAllPaths(st)
-			c.check("C10.invariant", shortFn(fn), "after `open = "+strings.TrimPrefix(v, "*&$s.")+"` every path to the exit re-validates inBlackout/blackoutIdx", ok, why)
+		paths, unch, fails, structural := checkFieldInvariant(c.P, fn, spec)
+		con := "assuming inBlackout ⇒ 0 ≤ blackoutIdx < len(open) at entry, it holds again at every return"
+		switch {
+		case structural != "":
+			c.undecided("C10.invariant", shortFn(fn), con, structural)
+		case len(fails) > 0:
+			c.check("C10.invariant", shortFn(fn), con, false, fmt.Sprintf("%d of %d paths fail; first: %s", len(fails), paths, fails[0]))
+		default:
+			c.check("C10.invariant", shortFn(fn), con, paths > unch, fmt.Sprintf("no path stores the fields (%d paths)", paths))
+			c.floorCheck("C10.invariant paths walked in "+shortFn(fn), paths, 3)
 		}
+	}
+	// the invariant's other owners: only these methods store the three fields,
+	// nothing re-enters them, and a fresh state starts outside a blackout
+	{
+		owners := map[*ssa.Function]bool{proc: true, cls: true}
+		bad := ""
+		for _, fn := range c.P.LibFuncs(false) {
+			for _, b := range fn.Blocks {
+				for _, ins := range b.Instrs {
+					if st, ok := ins.(*ssa.Store); ok {
+						if fa, ok := st.Addr.(*ssa.FieldAddr); ok && strings.HasSuffix(fa.X.Type().String(), "scte35.state") {
+							switch fieldName(fa.X.Type(), fa.Field) {
+							case "open", "blackoutIdx", "inBlackout":
+								if !owners[fn] {
+									bad = shortFn(fn) + " stores " + fieldName(fa.X.Type(), fa.Field) + " at " + c.P.Pos(st.Pos())
+								}
+							}
+						}
+					}
+					if ci, ok := ins.(ssa.CallInstruction); ok {
+						if cal := ci.Common().StaticCallee(); cal != nil && owners[cal] {
+							bad = shortFn(fn) + " calls " + shortFn(cal) + " at " + c.P.Pos(ins.Pos())
+						}
+						if ci.Common().IsInvoke() && strings.HasSuffix(ci.Common().Value.Type().String(), "scte35.State") {
+							bad = shortFn(fn) + " invokes State." + ci.Common().Method.Name() + " at " + c.P.Pos(ins.Pos())
+						}
+					}
+				}
+			}
+		}
+		c.check("C10.invariant", "scte35:(*state)", "only ProcessDescriptor and Close store open/blackoutIdx/inBlackout, and no library code calls back into the tracker", bad == "", bad)
 	}
 	for _, fn := range []*ssa.Function{proc, cls, opn} {
 		for _, b := range fn.Blocks {
